@@ -2,7 +2,7 @@
 # usage: seedcheck.sh <ID> [check args...]   - confirm a seeded change from /tmp/seed_out/<ID> (or /verif/seeded/<ID>) and run the check on it
 set -u
 ID=$1; shift
-SRC=/tmp/seed_out/$ID; [ -d "$SRC" ] || SRC=/verif/seeded/$ID
+SRC=${SEED_SRC:-/tmp/seed_out/$ID}; [ -d "$SRC" ] || SRC=/verif/seeded/$ID
 WT=/tmp/sc_$ID
 export GOFLAGS=-mod=mod GOPROXY=off GOSUMDB=off GOTOOLCHAIN=local CGO_LDFLAGS=-L/verif/build/lib
 git -C /repo worktree remove --force $WT 2>/dev/null
